@@ -217,6 +217,14 @@ class SymCtx:
                                                patterns=[z3.MultiPattern(L, at(k), at(l))], qid="run-decreasing"))
         return lo, hi
 
+    def gout(self, name):
+        """ghost output `name` of the contract being stated (a function int -> int): for a caller a fresh symbol,
+        for the function's own verification the witness given by the contract's ghost_witness"""
+        g = getattr(self, "_gout", None)
+        if not g or name not in g:
+            raise Unsupported(f"ghost output {name} is not available here")
+        return g[name]
+
     def _skolem_once(self, name, t, make):
         eng = self.engine
         probe = fresh("sk")
@@ -624,6 +632,9 @@ class RunCtx:
 
     def same_tuple(self, a, b):
         return tuple(a) == tuple(b)
+
+    def gout(self, name):
+        return self._gout[name]
 
     def prefix_argmax(self, t, j):
         t = tuple(t)
